@@ -13,7 +13,7 @@ meta = {
     "origin": "independent sub-agent given only the property text and a scratch worktree of /repo",
     "what_it_needs_to_manifest": needs,
     "confirmed_by_me": "in the scratch worktree (see CONFIRM.txt): patch applies on pristine HEAD; crate test suite passes with the change except the two data-file tests that fail before any change (and the demo itself); demonstration fails with the change and passes without it",
-    "checks_run_against_it": "tools/seedtest.sh <patch> <checks> : git -C /repo apply, ./check <id> --tier quick, git -C /repo checkout -- .",
+    "checks_run_against_it": "tools/seedtest_isolated.sh <patch> <checks>: the patch is applied to a scratch worktree of /repo that a copy of the harness links against, then ./check <id> --tier quick there",
     "caught_by": [c for c in caught.split(",") if c],
     "detection": note,
 }
